@@ -24,7 +24,8 @@ STUBS = ["sqllineage.runner.split -> statement handles of the template",
 ASSUMPTIONS = ["SQL validity: exposed relation names of one FROM scope pairwise distinct; CTE names of one WITH distinct",
                "an unqualified table name equal to a visible CTE name IS that CTE (shadowing) - handled by the oracle, not assumed away",
                "slots inside scalar subqueries nested in CASE/function stay concrete (the library re-enters on their text)",
-               "COPY / SELECT INTO / dialect-specific kinds are covered by C09's hand-written dialect templates only"]
+               "COPY / SELECT INTO / INSERT OVERWRITE / file sources / LIKE / CLONE / partition exchange / recursive CTEs: 31 hand-written "
+               "templates with hand-written expectations (RAW), not the generator grammar"]
 
 
 class TableOb(OracleOb):
